@@ -18,8 +18,11 @@ type Op struct {
 	Start         int64    `json:"start,omitempty"`
 	AutoCommit    bool     `json:"auto_commit,omitempty"`
 	PersistAlways bool     `json:"persist_always,omitempty"`
-	Sync          bool     `json:"sync,omitempty"`
-	DataOnly      bool     `json:"data_only,omitempty"`
+	// PersistEvery (open): auto-commit index persistence interval in microseconds (0 = the
+	// engine's default of one second, which no script ever reaches); "wait" ops let it elapse.
+	PersistEvery int64 `json:"persist_every,omitempty"`
+	Sync         bool  `json:"sync,omitempty"`
+	DataOnly     bool  `json:"data_only,omitempty"`
 	// write
 	TS   []int64 `json:"ts,omitempty"`
 	Seed uint64  `json:"seed,omitempty"`
@@ -69,6 +72,13 @@ type GenOpts struct {
 	MaxWrite int
 	// SmallTime keeps timestamps within a small range (crash enumeration, iterators).
 	SmallTime bool
+	// PersistIntervals gives some auto-committing writers a one-millisecond index
+	// persistence interval and adds "wait" operations that let it elapse, so that a writer's
+	// commits are a mix of persisting and non-persisting ones.
+	PersistIntervals bool
+	// GCDelete adds garbage-collection passes during which a time-range delete is fired at
+	// the moment the collector starts copying a file (needs Deletes and GC).
+	GCDelete bool
 	// SideChannels adds create / write / rename / delete operations on channels outside the
 	// model's index groups.
 	SideChannels bool
@@ -85,6 +95,9 @@ type WState struct {
 	Bound      int64 // timestamps must stay below
 	AutoCommit bool
 	Sync       bool
+	// PersistEvery > 0: the writer persists its index on the first auto-commit after that
+	// many microseconds
+	PersistEvery int64
 	// pending (uncommitted) samples per channel
 	PendTS   []int64
 	PendVals map[uint32][][]byte
@@ -152,7 +165,7 @@ func (s *State) groupBusy(idx uint32) bool {
 // ApplyOpen registers a writer in the model state.
 func (s *State) ApplyOpen(op Op) *WState {
 	w := &WState{ID: op.W, Channels: op.Channels, Start: op.Start, Last: op.Start - 1, Bound: tsInf,
-		AutoCommit: op.AutoCommit, Sync: op.Sync, DataOnly: op.DataOnly, PendVals: map[uint32][][]byte{}}
+		AutoCommit: op.AutoCommit, Sync: op.Sync, DataOnly: op.DataOnly, PersistEvery: op.PersistEvery, PendVals: map[uint32][][]byte{}}
 	first := s.M.Chans[op.Channels[0]]
 	if first.Spec.IsIndex {
 		w.Idx = first.Spec.Key
@@ -325,6 +338,44 @@ func Gen(t *rapid.T, o GenOpts) Script {
 			indexes = append(indexes, c.Key)
 		}
 	}
+	genWrite := func(w *WState) (Op, bool) {
+		op := Op{Kind: "write", W: w.ID, Seed: uint64(rapid.IntRange(0, 1<<30).Draw(t, "seed"))}
+		k := rapid.IntRange(1, 40).Draw(t, "k")
+		if o.MaxWrite > 0 && k > o.MaxWrite {
+			k = rapid.IntRange(1, o.MaxWrite).Draw(t, "k-capped")
+		}
+		if rapid.IntRange(0, 3).Draw(t, "small") > 0 {
+			k = rapid.IntRange(1, 5).Draw(t, "k-small")
+		}
+		if w.DataOnly {
+			if w.Wrote+1 > len(w.Avail) {
+				return Op{}, false
+			}
+			if w.Wrote+k > len(w.Avail) {
+				k = len(w.Avail) - w.Wrote
+			}
+			op.TS = append(op.TS, w.Avail[w.Wrote:w.Wrote+k]...)
+		} else {
+			ts := w.Last
+			for i := 0; i < k; i++ {
+				nx := ts + spacing()
+				if i == 0 && w.Wrote == 0 {
+					// the first sample may coincide with the writer start
+					nx = w.Start + int64(rapid.SampledFrom([]int{0, 0, 0, 1, 3}).Draw(t, "first-off"))
+				}
+				if nx >= w.Bound {
+					break
+				}
+				ts = nx
+				op.TS = append(op.TS, ts)
+			}
+			if len(op.TS) == 0 {
+				return Op{}, false
+			}
+		}
+		st.ApplyWrite(op)
+		return op, true
+	}
 	for len(sc.Ops) < nops {
 		var choices []string
 		if len(st.Writers) < 3 {
@@ -348,6 +399,17 @@ func Gen(t *rapid.T, o GenOpts) Script {
 		if o.SideChannels {
 			choices = append(choices, "side", "side")
 		}
+		if o.PersistIntervals {
+			for _, w := range st.Writers {
+				if w.PersistEvery > 0 {
+					choices = append(choices, "wait", "burst", "burst")
+					break
+				}
+			}
+		}
+		if o.GCDelete && o.GC && o.Deletes {
+			choices = append(choices, "gcdel")
+		}
 		kind := rapid.SampledFrom(choices).Draw(t, "kind")
 		switch kind {
 		case "open":
@@ -356,43 +418,28 @@ func Gen(t *rapid.T, o GenOpts) Script {
 				sc.Ops = append(sc.Ops, op)
 			}
 		case "write":
-			w := st.Writers[pickWriter(t, st)]
-			op := Op{Kind: "write", W: w.ID, Seed: uint64(rapid.IntRange(0, 1<<30).Draw(t, "seed"))}
-			k := rapid.IntRange(1, 40).Draw(t, "k")
-			if o.MaxWrite > 0 && k > o.MaxWrite {
-				k = rapid.IntRange(1, o.MaxWrite).Draw(t, "k-capped")
+			if op, ok := genWrite(st.Writers[pickWriter(t, st)]); ok {
+				sc.Ops = append(sc.Ops, op)
 			}
-			if rapid.IntRange(0, 3).Draw(t, "small") > 0 {
-				k = rapid.IntRange(1, 5).Draw(t, "k-small")
-			}
-			if w.DataOnly {
-				if w.Wrote+1 > len(w.Avail) {
-					continue
-				}
-				if w.Wrote+k > len(w.Avail) {
-					k = len(w.Avail) - w.Wrote
-				}
-				op.TS = append(op.TS, w.Avail[w.Wrote:w.Wrote+k]...)
-			} else {
-				ts := w.Last
-				for i := 0; i < k; i++ {
-					nx := ts + spacing()
-					if i == 0 && w.Wrote == 0 {
-						// the first sample may coincide with the writer start
-						nx = w.Start + int64(rapid.SampledFrom([]int{0, 0, 0, 1, 3}).Draw(t, "first-off"))
-					}
-					if nx >= w.Bound {
-						break
-					}
-					ts = nx
-					op.TS = append(op.TS, ts)
-				}
-				if len(op.TS) == 0 {
-					continue
+		case "burst":
+			// several consecutive writes of an interval-persisting writer with waits in
+			// between: a mix of persisting and non-persisting auto-commits, some of which
+			// roll the file over
+			var iw *WState
+			for _, id := range sortedWriterIDs(st) {
+				if st.Writers[id].PersistEvery > 0 {
+					iw = st.Writers[id]
+					break
 				}
 			}
-			st.ApplyWrite(op)
-			sc.Ops = append(sc.Ops, op)
+			for i, n := 0, rapid.IntRange(2, 5).Draw(t, "burst-n"); iw != nil && i < n; i++ {
+				if op, ok := genWrite(iw); ok {
+					sc.Ops = append(sc.Ops, op)
+				}
+				if rapid.IntRange(0, 2).Draw(t, "burst-wait") == 0 {
+					sc.Ops = append(sc.Ops, Op{Kind: "wait", A: 1300})
+				}
+			}
 		case "commit":
 			id := pickWriter(t, st)
 			st.ApplyCommit(id)
@@ -419,6 +466,13 @@ func Gen(t *rapid.T, o GenOpts) Script {
 			sc.Ops = append(sc.Ops, Op{Kind: "read", A: a, B: b})
 		case "delete":
 			if op, ok := genDelete(t, st); ok {
+				sc.Ops = append(sc.Ops, op)
+			}
+		case "wait":
+			sc.Ops = append(sc.Ops, Op{Kind: "wait", A: 1300})
+		case "gcdel":
+			if op, ok := genDelete(t, st); ok {
+				op.Kind = "gcdel"
 				sc.Ops = append(sc.Ops, op)
 			}
 		}
@@ -500,6 +554,15 @@ func genSide(t *rapid.T, st *State, indexes []uint32) (Op, bool) {
 	}
 }
 
+func sortedWriterIDs(st *State) []int {
+	ids := make([]int, 0, len(st.Writers))
+	for id := range st.Writers {
+		ids = append(ids, id)
+	}
+	sort.Ints(ids)
+	return ids
+}
+
 func pickWriter(t *rapid.T, st *State) int {
 	ids := make([]int, 0, len(st.Writers))
 	for id := range st.Writers {
@@ -525,6 +588,9 @@ func genOpen(t *rapid.T, st *State, indexes []uint32, o GenOpts) (Op, bool) {
 		AutoCommit:    rapid.IntRange(0, 2).Draw(t, "auto_commit") > 0,
 		PersistAlways: rapid.Bool().Draw(t, "persist_always"),
 		Sync:          rapid.IntRange(0, 3).Draw(t, "sync") > 0 || o.ForceSync,
+	}
+	if o.PersistIntervals && op.AutoCommit && !op.PersistAlways && rapid.Bool().Draw(t, "persist_every") {
+		op.PersistEvery = 1000
 	}
 	ic := st.M.Chans[idx]
 	// data-only writer (writes.mdx "Example 2"): start on an existing index sample
